@@ -1,6 +1,7 @@
 import TpmVerif.Base.Trace
 import TpmVerif.Model.Tpm12Core
 import TpmVerif.Model.Tpm12Nv
+import TpmVerif.Model.Tpm12Counter
 import TpmVerif.Spec.Tpm12Pcr
 /-! Correspondence checker for C20 traces: replays every traced operation (TPM_Extend, TPM_PCRRead, TPM_PCR_Reset,
     TPM_SHA1Start/Update/Complete/CompleteExtend, TPM_IO_Hash_*, TPM_IO_TpmEstablished_*, Startup, power cycle,
@@ -12,6 +13,7 @@ open TpmVerif TpmVerif.Gen.Tpm12 TpmVerif.Model TpmVerif.Model.Tpm12 TpmVerif.Mo
 structure CS where
   st : St := powerOn false TPM_BUFFER_MAX
   nv : Nv.St := Nv.fresh
+  ctr : Counter.St := {}
   rep : Report := {}
   line : Nat := 0
   live : Bool := false
@@ -169,6 +171,9 @@ def stepNv (c : CS) (l : Line) : CS :=
     let (nv', obs) := Nv.step c.nv op
     let c := branch c (nvBranch (Nv.invalidateSaved c.nv) l obs.rc)
     let c := { c with nv := nv' }
+    -- the counter model learns about the owner and about TPM_SaveState (countID is part of the saved state)
+    let c := if name = "takeownership" && l.nat "rc" = 0 then { c with ctr := (Counter.step c.ctr .takeOwnership).1 } else c
+    let c := if name = "savestate" && l.nat "rc" = 0 then { c with ctr := (Counter.step c.ctr .saveState).1 } else c
     let c := if l.nat "rc" ≠ obs.rc then mism c s!"{nvSig name}{name} {l.str "tag"} idx={l.nat "idx"}: rc model={obs.rc} impl={l.nat "rc"}" else c
     -- write-through: the command hands the permanent state to the storage callback exactly when the model says so
     let c := if l.nat "rc" = obs.rc && (l.nat? "stores").isSome && obs.stored ≠ decide (l.nat "stores" > 0) then
@@ -180,15 +185,56 @@ def stepNv (c : CS) (l : Line) : CS :=
       mism c s!"{nvSig name}{name} idx={l.nat "idx"}: output model={hexOfBytes obs.out} impl={l.str "out"}"
     else c
 
+/-! ### monotonic counter lines (`ctr name=...`) -/
+
+def parseCtr (l : Line) : Option Counter.Op :=
+  let ok := l.nat "ok" ≠ 0
+  match l.str "name" with
+  | "create" => some (.create ok)
+  | "increment" => some (.increment (l.nat "id") ok)
+  | "read" => some (.read (l.nat "id"))
+  | "release" => some (.release (l.nat "id") ok)
+  | "releaseowner" => some (.releaseOwner (l.nat "id") ok)
+  | _ => none
+
+def activeClass : Counter.Active → String
+  | .null => "none"
+  | .illegal => "released"
+  | .id _ => "some"
+
+def stepCtr (c : CS) (l : Line) : CS :=
+  let name := l.str "name"
+  let c := { c with rep := { c.rep with events := c.rep.events + 1 } }
+  let c := if l.nat "ret" ≠ 0 then mism c s!"{name}: TPMLIB_Process returned {l.nat "ret"}" else c
+  -- for the other two models a counter ordinal is "any other ordinal" (IncrementCounter etc. store the permanent state)
+  let c := { c with st := (Tpm12.Core.stepCmd Sha1.sha1 c.st .other).1, nv := (Nv.step c.nv .other).1 }
+  let c := if l.nat "stores" > 0 then { c with nv := (Nv.step c.nv .stored).1 } else c
+  let ctr0 := { c.ctr with failed := c.ctr.failed || c.st.failed || c.nv.failed, savedActive := if c.nv.saved.isSome then c.ctr.savedActive else none }
+  match parseCtr l with
+  | none => mism c s!"unknown counter op {name}"
+  | some op =>
+    let (ctr', obs) := Counter.step ctr0 op
+    let id := l.nat "id"
+    let c := branch c s!"ctr-{name}/ok={l.nat "ok"}/valid={Counter.validId ctr0 id}/inrange={decide (id < TPM_MIN_COUNTERS)}/active={activeClass ctr0.active}/isactive={decide (ctr0.active = .id id)}/rc={obs.rc}"
+    let c := { c with ctr := ctr' }
+    let c := if l.nat "rc" ≠ obs.rc then mism c s!"SPEC[counter-rc] {name} id={id}: rc model={obs.rc} impl={l.nat "rc"}" else c
+    let c := if l.nat "rc" = 0 && obs.rc = 0 && name ≠ "release" && name ≠ "releaseowner" && (l.nat "value" ≠ obs.value || (name = "create" && id ≠ obs.id)) then
+        mism c s!"SPEC[counter-value] {name}: model id={obs.id} value={obs.value} impl id={id} value={l.nat "value"}" else c
+    let c := if l.nat "rc" = obs.rc && obs.stored ≠ decide (l.nat "stores" > 0) then
+        mism c s!"SPEC[counter-write-through] {name} id={id}: model stored={obs.stored}, storage callback calls={l.nat "stores"}" else c
+    if l.nat "rc" = 0 && l.str "hmac" = "0" then mism c s!"SPEC[counter-response-hmac] {name} id={id}: the response HMAC does not verify" else c
+
 def step (c : CS) (l : Line) : CS :=
   let c := { c with line := c.line + 1 }
   match l.kind with
   | "hist" => { c with live := false }
-  | "power" => { c with st := powerOn false (l.nat "maxbuf"), nv := Nv.fresh, live := true }
+  | "ctr" => if c.live then stepCtr c l else c
+  | "power" => { c with st := powerOn false (l.nat "maxbuf"), nv := Nv.fresh, ctr := {}, live := true }
   | "restart" =>
       let c := branch c s!"restart/ret={l.nat "ret"}/failed={c.st.failed}/established={c.st.established}/saved={c.nv.saved.isSome}/nvlocked={c.nv.mem.nvLocked}"
       let c := if l.nat "ret" ≠ 0 then mism c s!"MainInit after Terminate returned {l.nat "ret"}" else c
-      { c with st := { powerOn c.st.established (l.nat "maxbuf") with saved := c.st.saved }, nv := Nv.powerCycle c.nv }
+      { c with st := { powerOn c.st.established (l.nat "maxbuf") with saved := c.st.saved }, nv := Nv.powerCycle c.nv,
+               ctr := (Counter.step c.ctr .powerCycle).1 }
   | "resume" =>
       -- suspend/resume through the state blobs must preserve everything this model tracks
       let c := branch c s!"resume/ret={l.nat "ret"}/thread={c.st.sha.isSome}/tis={c.st.tis.isSome}/saved={c.nv.saved.isSome}"
@@ -212,7 +258,8 @@ def step (c : CS) (l : Line) : CS :=
               let (nv', nobs) := Nv.step c.nv (.startup t)
               let c := branch c s!"nv-startup/st={t}/saved={c.nv.saved.isSome}/rc={nobs.rc}"
               let c := if nobs.rc ≠ obs.rc then mism c s!"internal: the two models disagree on Startup: core={obs.rc} nv={nobs.rc}" else c
-              { c with nv := nv' }
+              let ctr0 := { c.ctr with savedActive := if c.nv.saved.isSome then c.ctr.savedActive else none }
+              { c with nv := nv', ctr := (Counter.step ctr0 (.startup t)).1 }
           | _ => if op.isOrdinal then { c with nv := (Nv.step c.nv .other).1 } else c
         -- an ordinal / TIS call outside the NV model that stored the permanent state (tpmEstablished changed, ...) refreshes
         -- what a power cycle will bring back
